@@ -285,7 +285,9 @@ func runC04(c *Ctx) {
 		}
 		t := ExtractTable(p, f, TableConfig{Domain: dom})
 		roles := []Role{
-			{Name: "nonempty", IsBool: true, Match: func(a *Atom) bool { return strings.HasPrefix(a.Key, "range-nonempty(") && a.Key == "range-nonempty(e."+pair[1]+")" }},
+			{Name: "nonempty", IsBool: true, Match: func(a *Atom) bool {
+				return strings.HasPrefix(a.Key, "range-nonempty(") && a.Key == "range-nonempty(e."+pair[1]+")"
+			}},
 			{Name: "len", Match: func(a *Atom) bool { return a.HasName("Len") }},
 		}
 		_ = fld
@@ -376,7 +378,9 @@ func runC05(c *Ctx) {
 		t := ExtractTable(p, f, TableConfig{Domain: dom})
 		held := len(t.Rows) > 0 && len(t.Unsupported) == 0
 		for _, r := range t.Rows {
-			lk := r.Calls(func(e *Effect) bool { return e.Kind == "call" && e.Callee != nil && e.Callee.Name() == "Lock" && e.RecvHas(plF) })
+			lk := r.Calls(func(e *Effect) bool {
+				return e.Kind == "call" && e.Callee != nil && e.Callee.Name() == "Lock" && e.RecvHas(plF)
+			})
 			ul := r.Calls(func(e *Effect) bool { return e.Callee != nil && e.Callee.Name() == "Unlock" && e.RecvHas(plF) })
 			if len(lk) != 1 || len(ul) != 0 {
 				held = false
@@ -506,11 +510,15 @@ func runC05(c *Ctx) {
 			bc := r.Calls(func(e *Effect) bool {
 				return e.Kind == "call" && e.Callee != nil && (e.Callee.Name() == "Broadcast" || e.Callee.Name() == "Signal") && e.RecvHas(pcF)
 			})
-			lk := r.Calls(func(e *Effect) bool { return e.Kind == "call" && e.Callee != nil && e.Callee.Name() == "Lock" && e.RecvHas(pmF) })
+			lk := r.Calls(func(e *Effect) bool {
+				return e.Kind == "call" && e.Callee != nil && e.Callee.Name() == "Lock" && e.RecvHas(pmF)
+			})
 			if len(st) != 1 || len(bc) != 1 || len(lk) != 1 || !(lk[0].Gen < st[0].Gen && st[0].Gen < bc[0].Gen) {
 				ok, why = false, "Continue must clear the flag and then wake the waiter, both under the pause mutex (otherwise a wake-up can be lost between the waiter's test and its Wait)"
 			}
-			ul := r.Calls(func(e *Effect) bool { return e.Kind == "call" && e.Callee != nil && e.Callee.Name() == "Unlock" && e.RecvHas(pmF) })
+			ul := r.Calls(func(e *Effect) bool {
+				return e.Kind == "call" && e.Callee != nil && e.Callee.Name() == "Unlock" && e.RecvHas(pmF)
+			})
 			if len(ul) > 0 && len(bc) > 0 && ul[0].Gen < bc[0].Gen {
 				ok, why = false, "the waiter must be woken before the pause mutex is released"
 			}
